@@ -33,6 +33,18 @@ def items_of(ev):
     return [e for e in ev if (e.kind == 'emit' and e.ctor != 'asm.Metadata') or e.kind in ('sub', 'splice')]
 
 
+def _describe(gf, ev, em):
+    """(constructor kind, operand texts) of each emission - the class an emission constructs, however it is spelled
+    (literal class, table lookup, helper parameter bound to a class)."""
+    out = []
+    for e in em:
+        if e.kind == 'emit':
+            out.append((gf.ctor_kind(ev, ev.index(e)), tuple(src(a) for a in e.args)))
+        else:
+            out.append((('splice', e.text), ()))
+    return out
+
+
 def rendering(repo, chk, rule='C09.M1'):
     """Every instruction / directive / accessor class of asm.py, interpreted on one representative operand tuple
     each (the classes are pure formatters): mnemonic, operand order, `[...]` wrapping of destinations, separators."""
@@ -258,25 +270,29 @@ def run(repo, chk):
                        f'side is unsafe), right into r1: {got}', GEN)
             em = [e for e in seq if e.kind in ('emit', 'splice')]
             names = [e.short() for e in em]
+            desc = _describe(gf, ev, em)
             try:
-                i_chk = names.index('instr(left, right)')
+                i_chk = desc.index((('tbl', 'compare_map'), ('left', 'right')))
                 i_false = names.index('splice:if_false')
                 i_lab = names.index('asm.Label(compare_is_true)')
-                i_inv = names.index('halt_inversion[instr](left, right)')
+                i_inv = next(i for i, d in enumerate(desc) if d[0][0] == 'inv' and d[1] == ('left', 'right')
+                             and gf.ctor_kind(ev, ev.index(em[i_chk])) == ('tbl', 'compare_map'))
                 i_true = names.index('splice:if_true')
                 ok = names[i_chk - 1] == 'asm.Jump(compare_is_true)' and i_chk < i_false < i_lab < i_inv < i_true and i_inv == i_lab + 1
-            except ValueError:
+            except (ValueError, StopIteration):
                 ok = False
             chk.expect(ok, 'C09.M2', 'bool_expr_branch[compare]::polarity',
                        f'false code must follow the relation check, true code must follow the inverse at the target: {names}', GEN)
         gen_path = any(_efg.cond_is(e, 'expr.type == DataType.BOOL') is True for e in ev)
         if gen_path:
-            names = [e.short() for e in seq if e.kind in ('emit', 'splice')]
+            em = [e for e in seq if e.kind in ('emit', 'splice')]
+            names = [e.short() for e in em]
+            desc = _describe(gf, ev, em)
             try:
-                i_chk = names.index('asm.Hne(value, asm.IntLiteral(0))')
+                i_chk = desc.index((('cls', 'Hne'), ('value', 'asm.IntLiteral(0)')))
                 i_false = names.index('splice:if_false')
                 i_lab = names.index('asm.Label(expr_is_true)')
-                i_inv = names.index('asm.Heq(value, asm.IntLiteral(0))')
+                i_inv = desc.index((('cls', 'Heq'), ('value', 'asm.IntLiteral(0)')))
                 i_true = names.index('splice:if_true')
                 ok = names[i_chk - 1] == 'asm.Jump(expr_is_true)' and i_chk < i_false < i_lab < i_inv < i_true and i_inv == i_lab + 1
             except ValueError:
